@@ -10,7 +10,7 @@ MANIFEST = {
                  "regrouping of a box stream into segments and fragments, and of the byte-level box framing (headers, mfhd, tfdt, tfhd, "
                  "trun, traf, moof, mdat) + differential correspondence (extracted OCaml vs the real Go API on op histories, whole "
                  "segments, malformed box sequences and mutated moof bytes) + round-trip search on the implementation",
-    "level_text": "Theorems (coq/c05/C05Theorems.v and C05SegTheorems.v, all closed under the global context), for ALL sample field values, "
+    "level_text": "Theorems (coq/c05/C05Theorems.v, C05SegTheorems.v and C05EncTheorems.v, all closed under the global context), for ALL sample field values, "
                   "flag words, trex contents, extra-box sizes and op histories (induction over the op list and over the fragment list): "
                   "C05_segment_roundtrip_any: for ANY list of encoded fragments in ANY mix of the classes multi-track/AddFullSampleToTrack "
                   "(trex or nil trex), multi-track/AddSampleToTrack with the data written by the caller, single-track under ALL SIX add "
@@ -33,11 +33,29 @@ MANIFEST = {
                   "trun: C05_optimized_trun_decodes proves DecodeTrun's 1024 guard accepts whatever OptimizeTfhdTrun writes for a CreateTrun "
                   "trun, after fix 6c7a902; C05_optimized_trun_pinned_refuted for the old text). Refuted: C05_optimize_pinned_refuted (fixed), "
                   "C05_mixed_modes_refuted (known C05-F8). "
+                  "Encode INSIDE the histories (C05EncTheorems.v; Fragment.Encode is a state transformer: encode_state / run_hops): "
+                  "C05_encodes_simulation: for ANY starting fragment and all six add operations, a history with Encode calls accepts / refuses / "
+                  "panics on the same additions as the additions alone and reaches their fragment up to data offsets, large-size mark and (after "
+                  "optimised Encodes) flag word + tfhd defaults of the first trun; C05_roundtrip_with_encodes / _nil / _single: additions "
+                  "interleaved with any number of PLAIN Encodes read back exactly (the last Encode decides; multi-track AddFullSampleToTrack "
+                  "and single-track AddFullSample histories, optimisation on/off in the final Encode, any trex / nil); "
+                  "C05_roundtrip_with_encodes_guarded: any Encodes in the middle, also with OptimizeTrun, under enc_guard on the state the final "
+                  "Encode sees (first trun resolves to its own samples under its flag word + tfhd defaults; other truns carry all four fields), "
+                  "structure level; C05_encodes_opt_refuted = known finding C05-F10 (guard false, stale duration); "
+                  "C05_optimized_trun_decodes_cto: DecodeTrun's 1024 guard accepts the optimised form of EVERY trun that has a composition-"
+                  "offset field, whatever its other flags, for any sample count; C05_optimized_trun_nocto_refuted: without that field (flags "
+                  "0x701, 1025 equal samples) the optimised trun is refused: CreateTrun always sets 0xf01, so inside the quantifier (additions, "
+                  "ONE Encode) this cannot happen, but C05_encodes_opt_bare_refuted shows the API route through an EARLIER optimised Encode "
+                  "(2 equal samples; Encode with OptimizeTrun; 1023 more; Encode: 1025 samples, flags 0x001, refused; reproduced on the real "
+                  "code, probe:bareafteropt, class of C05-F10). C05_base_is_moof_start / C05_segment_base_is_moof_start: the base of the trun "
+                  "data offsets is the moof start (position of the fragment's first box + sizes of the boxes in front of the moof) for every "
+                  "decoded fragment of every segment; with the fragment start as base a fragment with an emsg in front does not read back. "
                   "NOT proved, explored only (correspondence + search): AddEmsg / AddChild on fragments that are not created ones (NewFragment, "
-                  "decoded fragments: corr kind L and probe:emsg), a plain Encode in the middle of a history (search + corr, the model skips "
-                  "it), byte level of extra children inside moof/traf and of the boxes around the fragments (sizes only), truns of decoded / "
-                  "hand-made fragments without a composition-offset field under optimisation (fix 6c7a902 keeps the cto field; a trun that "
-                  "never had one can still be optimised bare), EncodeSW vs Encode and DecodeFile vs DecodeFileSR (one model; differences are searched).",
+                  "decoded fragments: corr kind L and probe:emsg), Encode in the middle of metadata-only / interval histories (simulation proved, "
+                  "round trip only searched), that the 'other truns carry all four fields' half of enc_guard always holds for API-built fragments "
+                  "(hypothesis of the guarded theorem; proved only for plain Encodes), byte level of extra children inside moof/traf and of the "
+                  "boxes around the fragments (sizes only), EncodeSW vs Encode and DecodeFile vs DecodeFileSR (one model; differences are searched), "
+                  "Fragment.GetSampleInterval (search oracle only).",
     "level_note": "Trusted: Coq kernel, extraction (ExtrOcamlBasic), OCaml/Go glue, generators. The model is a hand transcription tied to "
                   "/repo by differential runs on every check (op outcome classes, write-order numbers, tfdt, mdat bookkeeping, flags and "
                   "defaults after optimisation, all data offsets, sizes, moof bytes, recovered FullSample lists; per segment: framing, "
@@ -92,7 +110,11 @@ def run(ctx):
     pr = ctx.proofs("c05", "C05Theorems.v")
     pr_seg = ctx.proofs("c05", "C05SegTheorems.v")
     pr_enc = ctx.proofs("c05", "C05EncTheorems.v")
-    ctx.notes["model_coverage"] = ("AddEmsg / AddChild / boxes put in front directly are ops of the H and G histories (the model computes the "
+    ctx.cov["trusted_base"].append("model: coq/c05/C05EncHistModel.v transcribes Fragment.Encode / EncodeSW as a state transformer "
+                                   "(OptimizeTfhdTrun on the first trun, SetTrunDataOffsets, MoofBox.Encode's data-offset check after fix 1704b4c, MdatBox.Size)")
+    ctx.notes["model_coverage"] = ("Encode in the middle of the H / G histories (N plain; O with OptimizeTrun, correspondence only) is run by the model "
+                                   "(encode_state); observable n= = tfhd flags/defaults, trun flags and data offsets right after each; "
+                                   "AddEmsg / AddChild / boxes put in front directly are ops of the H and G histories (the model computes the "
                                    "children layout; observable lay=), corr kind L runs them on created, empty and decoded fragments; "
                                    "O cases include truns of 1023..1100 mostly uniform samples (DecodeTrun's 1024 guard)")
     # ---- correspondence
@@ -171,12 +193,12 @@ def run(ctx):
                        "with/without init, Encode or EncodeSW, DecodeFile or DecodeFileSR): framing bits, segments, fragments per segment, moof start and mdat payload positions, per-trex read-back over all fragments; "
                        "corr B: as many malformed sequences of top-level boxes (mdat without moof, box between moof and mdat, two moofs, emsg only, styp/sidx in the middle): error/panic classes, segments, positions, GetFullSamples classes; "
                        "corr L: as many AddEmsg / AddChild / Encode histories on CreateFragment, CreateMultiTrackFragment, NewFragment and decoded fragments (emsg behind the mdat, alone, several in a row; boxes put in front directly): outcome class of every call and the children (kind, size) afterwards vs add_emsg / add_child; "
-                       "H/G histories also contain AddEmsg (E), AddChild (C), a plain Encode (N) and boxes put in front of the moof directly (children layout compared as lay=); O every 150th case has 1023..1100 mostly uniform samples; G also the witness of C05_sidx_guard_refuted (4 decoders); "
+                       "H/G histories also contain AddEmsg (E), AddChild (C), Encode calls in the middle (N plain, O with OptimizeTrun: outcome class + tfhd/trun flags and data offsets right after each compared as n=, the decode stage then shows the stale values of finding C05-F10 on both sides) and boxes put in front of the moof directly (children layout compared as lay=); O every 150th case has 1023..1100 mostly uniform samples; G also the witness of C05_sidx_guard_refuted (4 decoders); "
                        "corr M: the moof bytes of every plain fragment through DecodeBoxSR vs the byte-level model (1/4 truncated, 1/4 one byte changed: there the stricter model may answer error); "
                        "search: every such history of length <= %d, then %d random segments (1-4 tracks, 1-6 fragments, 0-40 ops, extra boxes, sidx, both encoders, optimise on/off, "
                        "both decoders, adversarial trex): added list == recovered list per track, the data-offset oracle, moof/mdat positions of every decoded fragment, "
-                       "Encode vs EncodeSW byte equality and DecodeFile vs DecodeFileSR agreement (every 4th); "
-                       "probes with metadata-only samples of huge payloads (offset oracle only), a re-encode probe, the >1024-uniform-samples probe, the mixed-mode probe and probe:emsg (AddEmsg x 3 on a fragment with an emsg behind its mdat, an empty one, decoded ones: no panic, emsg in front of the moof, round trip)"
+                       "Encode vs EncodeSW byte equality and DecodeFile vs DecodeFileSR agreement (every 4th), Fragment.GetSampleInterval over all samples of every one-trun decoded fragment == the added samples / first decode time / bytes; "
+                       "probes with metadata-only samples of huge payloads (offset oracle only), a re-encode probe, the >1024-uniform-samples probe, the mixed-mode probe, probe:bareafteropt (witness of C05_encodes_opt_bare_refuted) and probe:emsg (AddEmsg x 3 on a fragment with an emsg behind its mdat, an empty one, decoded ones: no panic, emsg in front of the moof, round trip)"
                        % (n, exh_c, exh_s, ns))
 
 
